@@ -80,27 +80,28 @@ const (
 
 // Snap is the observable editor state at an input wait.
 type Snap struct {
-	Step      int       `json:"step"`
-	Kind      string    `json:"kind"` // main | arg
-	Tokens    int       `json:"tokens"`
-	Partial   int       `json:"partial"`  // bytes of the current token already typed
-	Consumed  int       `json:"consumed"` // typed bytes handed to reads so far
-	Line      string    `json:"line"`
-	Pos       int       `json:"pos"`
-	Mark      int       `json:"mark"`
-	SelActive bool      `json:"sel_active"`
-	SelB      int       `json:"sel_b"`
-	SelE      int       `json:"sel_e"`
-	Main      string    `json:"main"`
-	Local     string    `json:"local"`
-	Kill      string    `json:"kill"`
-	Call      int       `json:"call"` // index of the Readline call
-	Screen    *emu.Term `json:"-"`
-	ReportRow int       `json:"report_row"` // last cursor report sent by the terminal (1-based), 0 if none
-	ReportCol int       `json:"report_col"`
-	Queries   int       `json:"queries"`
-	OutOff    int       `json:"out_off"` // offset in raw output at this wait
-	Dirty     bool      `json:"dirty"`   // a disturbance redisplay may be incomplete
+	Step         int       `json:"step"`
+	Kind         string    `json:"kind"` // main | arg
+	Tokens       int       `json:"tokens"`
+	Partial      int       `json:"partial"`  // bytes of the current token already typed
+	Consumed     int       `json:"consumed"` // typed bytes handed to reads so far
+	Line         string    `json:"line"`
+	Pos          int       `json:"pos"`
+	Mark         int       `json:"mark"`
+	SelActive    bool      `json:"sel_active"`
+	SelB         int       `json:"sel_b"`
+	SelE         int       `json:"sel_e"`
+	Main         string    `json:"main"`
+	Local        string    `json:"local"`
+	Kill         string    `json:"kill"`
+	Call         int       `json:"call"` // index of the Readline call
+	Screen       *emu.Term `json:"-"`
+	ReportRow    int       `json:"report_row"` // last cursor report sent by the terminal (1-based), 0 if none
+	ReportCol    int       `json:"report_col"`
+	AnchorAbsRow int       `json:"anchor_abs_row"` // absolute (scroll-independent) row of the last report
+	Queries      int       `json:"queries"`
+	OutOff       int       `json:"out_off"` // offset in raw output at this wait
+	Dirty        bool      `json:"dirty"`   // a disturbance redisplay may be incomplete
 }
 
 // Return is one return of Readline.
@@ -199,6 +200,7 @@ type Session struct {
 	siteOn               map[string]bool
 	siteCount            map[string]int
 	reportRow, reportCol int
+	reportAbs            int
 
 	rng     *rand.Rand
 	tapePos int
@@ -564,6 +566,7 @@ func (s *Session) root() {
 func (s *Session) onQuery(row, col int) {
 	s.queryCount++
 	s.reportRow, s.reportCol = row, col
+	s.reportAbs = row - 1 + s.Term.Scrolled
 	rep := fmt.Sprintf("\x1b[%d;%dR", row, col)
 	// fault: report withheld / cut
 	for i, f := range s.Spec.Plan.Faults {
@@ -1232,6 +1235,7 @@ func (s *Session) snapshot(kind string) Snap {
 		sn.Kill = string(sh.Buffers.GetKill())
 	}()
 	sn.ReportRow, sn.ReportCol = s.reportRow, s.reportCol
+	sn.AnchorAbsRow = s.reportAbs
 	sn.Queries = s.queryCount
 	sn.OutOff = int(s.outOff)
 	sn.Dirty = s.dirty
